@@ -5,4 +5,4 @@ From OFGA Require Import Store.Assertions Store.Models.
 Extraction Language OCaml.
 Extraction "c17_model.ml"
   t_mem_trace t_sql_trace t_spec_trace t_trace_ok t_ids_increasing t_mem_btrace t_sql_btrace
-  t_crun t_all_fresh t_leaders_fresh t_some_joined tbody_eqb is_ulid bltb.
+  t_crun t_all_own_store t_all_fresh t_leaders_fresh t_some_joined tbody_eqb is_ulid bltb.
